@@ -777,9 +777,9 @@ def c12(tier, rep):
     import itertools
 
     progs = []
-    dmax = 3
+    dmax = 3 if tier == "quick" else 4
     for ds in fp.profiles(3, dmax):
-        if max(ds) < 2:
+        if max(ds) < 2 or sum(ds) > 9:
             continue
         n = len(ds)
         readers = [(b, k) for b in range(n) for k in range(1, ds[b])]
@@ -887,10 +887,12 @@ def c13(tier, rep):
     from . import e1, fam_profiles as fp
 
     progs = []
-    for ds in fp.profiles(3, 2):
+    for ds in fp.profiles(3, 2 if tier == "quick" else 3):
         n = len(ds)
         positions = sorted({0, n // 2, n})
         for mac in KINDS8 + ["spawn", "try_spawn", "async_spawn", "try_async_spawn"]:
+            if sum(ds) > 7:
+                continue
             is_try = mac.startswith("try")
             alias = mac in ("spawn", "try_spawn", "async_spawn", "try_async_spawn")
             for hk in (("map", "and_then") if is_try else ("then",)):
@@ -913,6 +915,7 @@ def c13(tier, rep):
     exe = e1.build()
     d = e1_mode(rep, exe, ["opts", "handlers"], "C13", "handler legality")
     rep.set("legality_inputs", d["inputs"] if d else 0)
+    rep.set("profile_depth_bound", 2 if tier == "quick" else 3)
     rep.set("rule", "E2 under options: every handler kind, written first and last, behind custom_joiner / lazy_branches(true|false) / transpose_results(true) in sync, spawn, async and task-spawning kinds (async try with transpose_results(true): joined with a plain join and transposed by the macro — map still gets the unwrapped values and is skipped on failure), every failure subset; E2: depth profiles n<=3,d<=2 x 12 macros x {map, and_then | then} x handler written first / in the middle / last x EVERY failure subset (try) : handler event count, argument order, result wrapping vs the reference (handler called exactly once iff every branch succeeded; then: always); async then/and_then handlers return futures (awaited; the gated variants run under all wake-up orders in C09's set); E1: 8 configs x 3 handler kinds x 1-3 branches x every position x optional second handler at every position: rejection iff wrong kind or second handler")
     sample_family(rep, progs, fr)
 
